@@ -10,7 +10,7 @@ import common, build
 PID = "C14"
 N_NEW = 10
 CAPMAX = 512
-FILES = {0: ["E"], 1: ["F", "G"], 2: ["A"], 3: None, 4: None, 5: None, 6: [], 7: None, 8: None, 9: None, 10: ["Si"], 11: ["Aa", "B"]}
+FILES = {0: ["E"], 1: ["F", "G"], 2: ["A"], 3: None, 4: None, 5: None, 6: [], 7: None, 8: None, 9: None, 10: ["Si"], 11: ["Aa", "B"], 12: None, 13: None}
 
 
 def mk(name):
@@ -395,8 +395,8 @@ def explore(ctx, exe, roots, alphabet, max_depth, san_exe=None, nworkers=16, lab
     return states, transitions, closed, maxdepth, outcomes
 
 
-CORE = ["I0", "I1", "I2", "AA", "AB", "ANULL", "R0", "R1", "R2", "R9", "R11", "R4", "R7", "GA", "GZ", "K", "M", "X", "F", "aA", "gSi"]
-FULL = ["I-1", "I0", "I1", "I2", "I12", "AA", "AB", "AC", "AD", "ANULL", "R0", "R1", "R2", "R3", "R4", "R5", "R6", "R7", "R8", "R9", "R10", "R11",
+CORE = ["I0", "I1", "I2", "AA", "AB", "ANULL", "R0", "R1", "R2", "R9", "R11", "R12", "R4", "R7", "GA", "GZ", "K", "M", "X", "F", "aA", "gSi"]
+FULL = ["I-1", "I0", "I1", "I2", "I12", "AA", "AB", "AC", "AD", "ANULL", "R0", "R1", "R2", "R3", "R4", "R5", "R6", "R7", "R8", "R9", "R10", "R11", "R12", "R13",
         "GA", "GE", "GZ", "GNULL", "K", "M", "X", "F", "aA", "aB", "aSi", "aNULL", "r0", "r1", "r2", "r9", "r10", "r7", "gSi", "gA", "gZ", "gNULL"]
 
 
@@ -415,7 +415,7 @@ def run(ctx, B):
     s, t, closed2, md, oc = explore(ctx, exe, [[], ["P2"], ["P12"]], FULL, 2 if quick else 5, san_exe=san if not quick else None, label="full")
     res["full"] = dict(states=s, transitions=t, closed=closed2, max_depth=md, outcomes=len(oc)); tot_s += s; tot_t += t
     # 3. built-in collection at / near its fixed capacity
-    s, t, closed3, md, oc = explore(ctx, exe, [["Q0"], ["Q1"], ["Q2"]], ["aA", "aB", "aSi", "r0", "r1", "r10", "r11", "gA", "gzf000", "gSi", "X", "M"], 3 if quick else 12,
+    s, t, closed3, md, oc = explore(ctx, exe, [["Q0"], ["Q1"], ["Q2"]], ["aA", "aB", "aSi", "r0", "r1", "r10", "r11", "r12", "gA", "gzf000", "gSi", "X", "M"], 3 if quick else 12,
                                     san_exe=san, label="builtin-capacity", nworkers=8)
     res["builtin_capacity"] = dict(states=s, transitions=t, closed=closed3, max_depth=md, outcomes=len(oc)); tot_s += s; tot_t += t
     ctx.cov.update(states=max(tot_s, 1), transitions=max(tot_t, 1), traces_validated_against_impl=tot_t)
@@ -428,7 +428,7 @@ def run(ctx, B):
                        "(+ spare-capacity class), deduplicated on a canonical key; every transition is executed on the implementation in a fork of the state "
                        "reached by replaying the history, compared with a dictionary model, and repeated under ASan/UBSan; teardown from every state checks that "
                        "no library block stays live; 'closed' = the frontier emptied below the depth bound")
-    ctx.assumptions += ["finite name alphabet {A..G, Si, fillers}; file alphabet of 11 generated crystal files (well-formed, duplicate, malformed #S, missing/short #UCELL, bad atom line, empty, missing, NULL)",
+    ctx.assumptions += ["finite name alphabet {A..G, Si, fillers}; file alphabet of 14 generated crystal files (well-formed, duplicate of a present crystal as first / as second entry, the same name twice inside one file (adjacent and apart), malformed #S, missing/short #UCELL, bad atom line, empty, missing, NULL)",
                         "ReadFile is all-or-nothing: a file with a duplicate or malformed crystal leaves the collection unchanged; an empty file may return either status"]
 
 
